@@ -251,7 +251,46 @@ def _worker(widx, wseed, n, check):
         f = hyp_search(case_strategy, prop, wseed, n, stats)
         if f:
             failures.append(f)
+        # coverage-guided campaign with the same oracle inside the target (harness/fuzz_lex.cpp); artifacts are re-checked
+        # by the Python oracle before they count
+        if widx < 4:
+            failures += fuzz_lex(check, widx, wseed, 12 if n < 10000 else 600, sc, stats)
     return {"stats": stats.export(), "failures": failures}
+
+
+def fuzz_lex(check, widx, wseed, seconds, sc, stats):
+    import glob
+    import subprocess
+    from .. import build as _build
+    fuzzdir = _build.build("fuzz")
+    corp = os.path.join(sc.dir, "corp")
+    art = os.path.join(sc.dir, "art")
+    os.makedirs(corp, exist_ok=True)
+    os.makedirs(art, exist_ok=True)
+    dic = os.path.join(sc.dir, "dict.txt")
+    with open(dic, "w") as f:
+        for t in KEYWORDS + OPERATORS + ["//", "1.5f", "0b", "12L"]:
+            f.write('"' + t + '"\n')
+        f.write('"\\x22"\n"\\x27"\n"\\x0a"\n')
+    cmd = [os.path.join(fuzzdir, "fuzz_lex"), f"-max_total_time={seconds}", "-max_len=2048", "-timeout=10",
+           f"-seed={wseed % (2**31 - 1) + 1}", f"-dict={dic}", f"-artifact_prefix={art}/", "-print_final_stats=1", corp]
+    env = dict(common.ENV_BASE)
+    env["ASAN_OPTIONS"] = "detect_leaks=0:abort_on_error=1"
+    p = subprocess.run(cmd, stdout=subprocess.PIPE, stderr=subprocess.PIPE, env=env, timeout=seconds + 120)
+    for ln in p.stderr.decode("latin-1").splitlines():
+        if ln.startswith("stat::number_of_executed_units:"):
+            stats.count("fuzz_execs", int(ln.split()[-1]))
+    fails = []
+    for a in sorted(glob.glob(os.path.join(art, "crash-*"))):
+        with open(a, "rb") as f:
+            src = f.read().decode("latin-1")
+        case = {"src": src, "lexemes": None}
+        w = check.oracle(case)
+        if w:
+            fails.append({"case": case, "why": w})
+        else:
+            stats.count("fuzz_artifact_not_confirmed")
+    return fails
 
 
 if __name__ == "__main__":
